@@ -362,6 +362,11 @@ func drawOp(t *rapid.T, kind string, e genEnv) Op {
 		}
 	case "totpconfirm":
 		op.A = rapid.IntRange(0, e.nAcct-1).Draw(t, "acct")
+		if chance(t, "confirmwithrec", 10) {
+			op.F = true
+			drawSecret(t, &op, e, poolRecovery)
+			break
+		}
 		drawSecret(t, &op, e, []sc{{"totpsess", 50, "", nil}, {"totpsess-2", 8, "", nil}, {"totp", 15, "any", nil}, {"rand6", 15, "", nil}, {"empty", 8, "", nil}, {"lit", 7, "", nil}})
 	case "smsvalidate", "smsremove":
 		op.A = rapid.IntRange(0, e.nAcct-1).Draw(t, "acct")
@@ -379,7 +384,13 @@ func drawOp(t *rapid.T, kind string, e genEnv) Op {
 		}
 	case "smsconfirm":
 		op.A = rapid.IntRange(0, e.nAcct-1).Draw(t, "acct")
-		drawSecret(t, &op, e, poolSMS)
+		if chance(t, "confirmwithrec", 15) {
+			// the confirm page has no use for a recovery code: sending one must not help
+			op.F = true
+			drawSecret(t, &op, e, poolRecovery)
+		} else {
+			drawSecret(t, &op, e, poolSMS)
+		}
 	case "smssetup":
 		op.S = pick(t, "number", "+15550001", "+15550009", "+4477000", "")
 	case "smsresend":
@@ -623,7 +634,14 @@ func drawSnippet(t *rapid.T, name string, e genEnv) []Op {
 		}
 		other := (a + 1) % e.nAcct
 		for i := rapid.IntRange(1, 4).Draw(t, "npokes"); i > 0; i-- {
-			switch pick(t, "poke", "evend-empty", "evend-absent", "evstart-end", "totpsetup", "smssetup-new", "smsremove-sess", "smsremove-own", "totpremove-own", "totpremove-other", "remove-rec", "remove-rec-other", "confirm-sess", "resend-remove", "advance", "sms-relabel", "sms-relabel") {
+			switch pick(t, "poke", "evend-empty", "evend-absent", "evstart-end", "totpsetup", "smssetup-new", "smsremove-sess", "smsremove-own", "totpremove-own", "totpremove-other", "remove-rec", "remove-rec-other", "confirm-sess", "confirm-rec", "confirm-rec", "resend-remove", "advance", "sms-relabel", "sms-relabel") {
+			case "confirm-rec":
+				// an enrolment confirmed with an (own, unused) recovery code instead of the code for the new factor
+				if chance(t, "whichfactor", 50) {
+					ops = append(ops, Op{K: "smssetup", B: b, S: pick(t, "number", "+15550009", "+4477000")}, Op{K: "smsconfirm", B: b, A: a, Src: "rec", SA: a, SN: rapid.IntRange(0, 2).Draw(t, "recn"), F: true})
+				} else {
+					ops = append(ops, Op{K: "totpsetup", B: b}, Op{K: "totpconfirm", B: b, A: a, Src: "rec", SA: a, SN: rapid.IntRange(0, 2).Draw(t, "recn"), F: true})
+				}
 			case "sms-relabel":
 				// a code texted to one number, then requests (inside the resend limit) that could re-label it
 				ops = append(ops, Op{K: "smssetup", B: b, S: pick(t, "number", "+15550009", "+4477000")},
